@@ -270,6 +270,10 @@ def main(tier):
                         if quick and order == 1 and tool in ("dround", "dseq"):
                             continue
                         pjobs.append((a, bb, tool, order))
+                    # sed mode: the value sits inside a line and is found by the line scanner, whose search window for a month name
+                    # comes from the *input* names -- the output locale must not move it
+                    if tool != "dseq" and (not quick or hash((a, bb, tool)) % 2 == 0 or a == "C"):
+                        pjobs.append((a, bb, tool, 2))
 
         def run_pair(job):
             a, bb, tool, order = job
@@ -277,10 +281,15 @@ def main(tier):
             txt = "4 %s 2012" % inm
             oi = ["--from-locale", a] if a != "C" else []
             of = ["--locale", bb] if bb != "C" else []
-            opts = (of + oi) if order else (oi + of)
+            opts = (of + oi) if order == 1 else (oi + of)
             base = opts + ["-i", "%d %B %Y", "-f", "%A|%a|%B|%b"]
             w = 2
-            if tool == "dseq":
+            stdin = None
+            if order == 2:
+                argv = [tool] + opts + ["-S", "-i", "%B/%d %Y", "-f", "%A|%a|%B|%b"] + (["+1d"] if tool == "dadd" else ["4d"] if tool == "dround" else [])
+                stdin = "x %s/04 2012 y\n" % inm
+                w = 3 if tool == "dadd" else 2
+            elif tool == "dseq":
                 argv = [tool] + base + [txt, txt]
             elif tool == "dround":
                 argv = [tool] + base + [txt, "4d"]
@@ -289,11 +298,14 @@ def main(tier):
                 w = 3
             else:
                 argv = [tool] + base + [txt]
-            p = core.run([b.tool(tool)] + argv[1:], timeout=20, env={"LOCALE_FILE": locfile})
-            parts = (p.stdout.split("\n")[0] if p.stdout.strip() else "|||").split("|")
+            p = core.run([b.tool(tool)] + argv[1:], timeout=20, env={"LOCALE_FILE": locfile}, inp=stdin)
+            first = p.stdout.split("\n")[0] if p.stdout.strip() else "|||"
+            if order == 2:
+                first = first[2:-2] if first.startswith("x ") and first.endswith(" y") else "|||"
+            parts = first.split("|")
             parts += [""] * (4 - len(parts))
             evs = [{"e": "Reset"}]
-            for o in ([("SetF", bb), ("SetI", a)] if order else [("SetI", a), ("SetF", bb)]):
+            for o in ([("SetF", bb), ("SetI", a)] if order == 1 else [("SetI", a), ("SetF", bb)]):
                 if o[1] != "C":
                     evs.append({"e": o[0], "loc": o[1]})
             evs.append({"e": "Conv", "cmd": " ".join(argv), "tool": tool, "min": 12, "inm": inm, "m": 12, "w": w,
@@ -319,7 +331,7 @@ def main(tier):
                 return "locale dgrep --from-locale: expression operand not read with the input locale"
             if bad.get("e") == "Conv":
                 given = "+".join({"SetI": "--from-locale", "SetF": "--locale"}[e["e"]] for e in ex[1:-1]) or "no locale option"
-                return "locale %s with %s: wrong or missing names" % (bad.get("tool"), given)
+                return "locale %s%s with %s: wrong or missing names" % (bad.get("tool"), " -S" if " -S " in bad.get("cmd", "") else "", given)
             return "locale setters: tables after %s" % "/".join(e["e"] for e in ex[2:] if e["e"] != "Tables")[:60]
         cc.validate_and_report(rep, "LocaleTrace", "LocaleTrace.cfg", lexecs + pexecs, lkey, "locale_execution",
                                group=lambda ex: ex[-1].get("tool", "setters"), env={"NAMES": names_path})
